@@ -762,7 +762,7 @@ func c11b(c *Ctx) {
 			got := ""
 			if operand != nil {
 				got = c.term(fn, operand.Val)
-				_, f := c.withFields(fn, got)
+				_, f := c.valueWith(fn, operand.Val)
 				okOp = f != nil && f["Literal"] == "*("+res+"#0)" && f["Type"] == `"IDENT"`
 			}
 			c.Check(okOp, "leaf/operand-is-result-var", c.W.FuncPos(fn), "the leaf compares the command's result var", "AutoVar leaf operand is "+pretty(got)+", expected a token whose literal is the returned result var")
@@ -775,8 +775,8 @@ func c11b(c *Ctx) {
 		got := ""
 		for _, st := range storesToField(fn, "ast", "SwitchStatement", "Operand") {
 			v := c.term(fn, st.Val)
-			_, f := c.withFields(fn, v)
-			if f != nil && strings.Contains(v, res+"#1.Token") {
+			base, f := c.valueWith(fn, st.Val)
+			if f != nil && (strings.Contains(base, res+"#1.Token") || strings.Contains(v, res+"#1.Token")) {
 				got = v
 				ok = f["Literal"] == "*("+res+"#0)"
 			}
@@ -802,12 +802,17 @@ func c11b(c *Ctx) {
 			if len(es) != 1 {
 				return
 			}
-			et := c.term(fn, es[0])
-			if et == "(*parser.Parser).parseSwitchStatement@0#1" {
-				preApp = call
-			}
-			if et == "(*parser.Parser).parseSwitchStatement@0#0" {
-				stmtApp = call
+			// the element may be a merge of the statements of several arms (one shared append)
+			var els []ssa.Value
+			phiLeaves(es[0], map[ssa.Value]bool{}, &els)
+			for _, el := range els {
+				et := c.term(fn, unwrapIface(el))
+				if et == "(*parser.Parser).parseSwitchStatement@0#1" {
+					preApp = call
+				}
+				if et == "(*parser.Parser).parseSwitchStatement@0#0" {
+					stmtApp = call
+				}
 			}
 		})
 		ok := preApp != nil && stmtApp != nil
